@@ -1,5 +1,6 @@
 //! C08 — stream end is reported only after the checksum and length trailer verified.
 use crate::api::*;
+use core::ffi::c_int;
 use crate::einf::*;
 use crate::gen::*;
 use crate::json::{hex_cut, J};
@@ -10,7 +11,7 @@ use crate::refimpl::rgzh::{decode_stream, parse_gzip_header, parse_zlib_header, 
 use crate::runner::*;
 use crate::tape::{Fp, Tape};
 
-pub const RULE: &str = "tape -> zlib or gzip stream (R-GEN body rich in stored blocks, or zlib-rs/zlib-ng encoder output; gzip with/without FHCRC, extra/name/comment) then one targeted corruption that keeps the deflate syntax valid {bit flip in a stored-block payload byte, in each trailer byte, in a header byte covered by FHCRC, none} or an arbitrary mutation; x decoder mode {zlib,gzip,auto} x 3 schedules stressing Window::extend (per-call output >= 32768, ring wrap, 1-byte calls, trailer split at every offset). Oracle on EVERY stream end: the trailer bytes just consumed equal bitwise Adler-32 (BE) / CRC-32 + ISIZE (LE) of the bytes actually output, the FHCRC equals CRC-32 of the header bytes; payload/trailer/FHCRC-covered corruptions must end in DATA_ERROR. Non-trivial = the reference decoder reaches the final block (verdict hinges on the trailer) and the case is a corruption or an intact stream decoded in >= 3 calls; distinct by (bytes, mode, schedules).";
+pub const RULE: &str = "tape -> zlib or gzip stream (R-GEN body rich in stored blocks, or zlib-rs/zlib-ng encoder output; gzip with/without FHCRC, extra/name/comment) then one targeted corruption that keeps the deflate syntax valid {bit flip in a stored-block payload byte, in each trailer byte, in a header byte covered by FHCRC, none} or an arbitrary mutation; x decoder mode {zlib,gzip,auto} x fresh stream or stream reused (part of the intact stream, optionally an inflateSync that fails, inflateReset) x 3 schedules stressing Window::extend (per-call output >= 32768, ring wrap, 1-byte calls, trailer split at every offset). Oracle on EVERY stream end: the trailer bytes just consumed equal bitwise Adler-32 (BE) / CRC-32 + ISIZE (LE) of the bytes actually output, the FHCRC equals CRC-32 of the header bytes; payload/trailer/FHCRC-covered corruptions must end in DATA_ERROR. Plus one gzip stream of 4 GiB + 3 MiB (made by zlib-ng; ISIZE = length mod 2^32), intact and with ISIZE / CRC corrupted, decoded by zlib-rs and compared with the data. Non-trivial = the reference decoder reaches the final block (verdict hinges on the trailer) and the case is a corruption or an intact stream decoded in >= 3 calls; distinct by (bytes, mode, schedules).";
 
 /// universal oracle: whenever zlib-rs says STREAM_END in a wrapped mode, the consumed trailer must match the output
 pub fn check_end(bytes: &[u8], mode: &DecMode, run: &InfRun) -> Option<(String, String)> {
@@ -166,7 +167,14 @@ pub fn case(tape: &[u8], ctx: &Ctx) -> Outcome {
         w: if w == 0 && need_ok && corruption != "byte-replace" && kind != 5 { 0 } else { 15 },
     };
     let scheds: Vec<InfSchedule> = (0..3).map(|_| trailer_sched(&mut t, bytes.len())).collect();
-    let io = InfOpts::new(mode.arg());
+    let mut io = InfOpts::new(mode.arg());
+    // sometimes on a reused stream: the beginning of the intact stream, an inflateSync that finds no marker (fails),
+    // inflateReset - checking is still "enabled (the default)" then, so every oracle applies unchanged
+    let reuse = t.chance(70);
+    let pre = (1 + t.below(3), t.pick(&[1usize, 3, 11, 100, 100_000]), t.pick(&[0usize, 1, 50, 100_000]), t.bool());
+    if reuse {
+        io.prehistory = Some(Prehistory { bytes: &s.bytes, calls: pre.0, in_chunk: pre.1, out_chunk: pre.2, failed_sync: pre.3 });
+    }
     let mut max_calls = 0;
     ARENAS.with(|ar| {
         for (k, sc) in std::iter::once(&InfSchedule::one_shot()).chain(scheds.iter()).enumerate() {
@@ -190,6 +198,9 @@ pub fn case(tape: &[u8], ctx: &Ctx) -> Outcome {
         }
     });
     o.evals = 4;
+    if reuse {
+        o.class(if pre.3 { "stream reused after partial stream + failed inflateSync + inflateReset" } else { "stream reused after partial stream + inflateReset" });
+    }
     o.class(match corruption {
         "none" => "intact",
         "stored payload bit flip" => "stored payload bit flip",
@@ -232,6 +243,171 @@ pub fn case(tape: &[u8], ctx: &Ctx) -> Outcome {
     o
 }
 
+// ---- streams longer than 4 GiB: "length mod 2^32" ------------------------------------------------------------------
+
+/// the i-th MiB of the huge logical stream: zeros with a 64-byte stamp that depends on i
+fn huge_block(i: u64, buf: &mut [u8]) {
+    for b in buf.iter_mut() {
+        *b = 0;
+    }
+    let mut x = crate::tape::Xs::new(0x4B1D ^ i);
+    for b in buf[..64].iter_mut() {
+        *b = x.next() as u8;
+    }
+}
+
+/// gzip stream (made by zlib-ng, level 1) of `blocks` MiB; returns (compressed, CRC-32 by zlib-ng, length)
+fn huge_stream(blocks: u64) -> Option<(Vec<u8>, u32, u64)> {
+    let mut strm = zs();
+    if unsafe { Ng::deflateInit2(&mut strm, 1, 8, 31, 8, 0) } != Z_OK {
+        return None;
+    }
+    let mut comp: Vec<u8> = Vec::new();
+    let mut obuf = vec![0u8; 1 << 20];
+    let mut ibuf = vec![0u8; 1 << 20];
+    let mut crc: std::ffi::c_ulong = 0;
+    for i in 0..blocks {
+        huge_block(i, &mut ibuf);
+        crc = unsafe { crate::api::ngsys::crc32(crc, ibuf.as_ptr(), ibuf.len() as u32) };
+        strm.next_in = ibuf.as_ptr();
+        strm.avail_in = ibuf.len() as u32;
+        let flush = if i + 1 == blocks { Z_FINISH } else { Z_NO_FLUSH };
+        loop {
+            strm.next_out = obuf.as_mut_ptr();
+            strm.avail_out = obuf.len() as u32;
+            let rc = unsafe { Ng::deflate(&mut strm, flush) };
+            comp.extend_from_slice(&obuf[..obuf.len() - strm.avail_out as usize]);
+            if rc == Z_STREAM_END || (flush == Z_NO_FLUSH && strm.avail_in == 0 && strm.avail_out != 0) {
+                break;
+            }
+            if rc != Z_OK && rc != Z_BUF_ERROR {
+                unsafe { Ng::deflateEnd(&mut strm) };
+                return None;
+            }
+        }
+    }
+    unsafe { Ng::deflateEnd(&mut strm) };
+    Some((comp, crc as u32, blocks << 20))
+}
+
+/// decode with zlib-rs, 3 MiB of output space per call; returns (final rc, bytes output, output equals the pattern)
+fn huge_inflate(comp: &[u8]) -> (c_int, u64, bool, u64) {
+    let mut strm = zs();
+    if unsafe { Rs::inflateInit2(&mut strm, 47) } != Z_OK {
+        return (Z_STREAM_ERROR, 0, false, 0);
+    }
+    let mut obuf = vec![0u8; 3 << 20];
+    let mut want = vec![0u8; 1 << 20];
+    let (mut pos, mut produced, mut same) = (0usize, 0u64, true);
+    let mut rc;
+    loop {
+        let ic = (comp.len() - pos).min(1 << 20);
+        strm.next_in = comp[pos..].as_ptr();
+        strm.avail_in = ic as u32;
+        strm.next_out = obuf.as_mut_ptr();
+        strm.avail_out = obuf.len() as u32;
+        rc = unsafe { Rs::inflate(&mut strm, Z_NO_FLUSH) };
+        pos += ic - strm.avail_in as usize;
+        let n = obuf.len() - strm.avail_out as usize;
+        // compare with the pattern, MiB by MiB
+        let mut off = 0usize;
+        while off < n && same {
+            let abs = produced + off as u64;
+            let blk = abs >> 20;
+            let inb = (abs & 0xFFFFF) as usize;
+            let take = (n - off).min((1 << 20) - inb);
+            huge_block(blk, &mut want);
+            if obuf[off..off + take] != want[inb..inb + take] {
+                same = false;
+            }
+            off += take;
+        }
+        produced += n as u64;
+        if rc != Z_OK || (n == 0 && ic == 0) {
+            break;
+        }
+    }
+    let total_out = strm.total_out as u64;
+    unsafe { Rs::inflateEnd(&mut strm) };
+    (rc, produced, same, total_out)
+}
+
+fn huge_cases(ctx: &Ctx, sink: &mut dyn FnMut(&[u8], Option<Outcome>) -> bool) {
+    // one worker does it: ~4 GiB + 3 MiB through zlib-ng's deflate once and zlib-rs's inflate three times
+    if ctx.worker != 0 || std::env::var("VERIF_NO_HUGE").is_ok() {
+        return;
+    }
+    let blocks: u64 = 4096 + 3;
+    let (comp, crc, len) = match huge_stream(blocks) {
+        Some(x) => x,
+        None => return,
+    };
+    let n = comp.len();
+    let isize_le = ((len & 0xFFFF_FFFF) as u32).to_le_bytes();
+    for variant in 0u8..3 {
+        if !sink(&[variant], None) {
+            return;
+        }
+        let mut o = Outcome::new();
+        let mut c = comp.clone();
+        let what = match variant {
+            0 => "intact",
+            1 => {
+                // ISIZE holds a value that is right only if lengths are NOT taken mod 2^32 ... there is no such
+                // 32-bit value; instead: the length of the stream minus 4 GiB plus one
+                let v = ((len & 0xFFFF_FFFF) as u32).wrapping_add(1).to_le_bytes();
+                c[n - 4..].copy_from_slice(&v);
+                "ISIZE off by one"
+            }
+            _ => {
+                c[n - 8] ^= 0x10;
+                "CRC-32 bit flipped"
+            }
+        };
+        let trailer_ok = c[n - 8..n - 4] == crc.to_le_bytes() && c[n - 4..] == isize_le;
+        let (rc, produced, same, total_out) = huge_inflate(&c);
+        if variant == 0 && !trailer_ok {
+            o.internal = Some("zlib-ng's trailer of the huge stream is not CRC-32 / length mod 2^32 of the input".into());
+        } else if !same {
+            o.fail("huge/output-differs", format!("{} MiB stream ({}): the output differs from the data that was compressed", blocks, what));
+        } else if variant == 0 && (rc != Z_STREAM_END || produced != len || total_out != len) {
+            o.fail("huge/valid-stream-not-accepted", format!("gzip stream of {} bytes (> 4 GiB, ISIZE = length mod 2^32 = {}): inflate ended with {} after {} bytes, total_out {}", len, len & 0xFFFF_FFFF, rc_name(rc), produced, total_out));
+        } else if variant != 0 && rc == Z_STREAM_END {
+            o.fail("huge/corrupt-trailer-accepted", format!("gzip stream of {} bytes with {}: inflate reported Z_STREAM_END", len, what));
+        } else if variant != 0 && rc != Z_DATA_ERROR {
+            o.fail("huge/status", format!("gzip stream of {} bytes with {}: inflate ended with {}", len, what, rc_name(rc)));
+        }
+        o.class("stream longer than 4 GiB (length mod 2^32)");
+        let mut fp = Fp::new();
+        fp.add(0x4_0000_0000 + variant as u64);
+        o.nontrivial = Some(fp.0);
+        if ctx.want_sample && variant == 0 {
+            o.sample = Some(J::obj().set("kind", J::s("gzip stream > 4 GiB")).set("bytes_out", J::U(len)).set("compressed", J::U(n as u64)).set("isize_field", J::U(len & 0xFFFF_FFFF)));
+        }
+        if !sink(&[variant], Some(o)) {
+            return;
+        }
+    }
+}
+
+fn huge_replay(tape: &[u8], ctx: &Ctx) -> Outcome {
+    // replay = run the phase again on a context that owns worker 0 and report the variant's outcome
+    let want = tape.first().copied().unwrap_or(0);
+    let mut found: Option<Outcome> = None;
+    let c2 = Ctx { tier: ctx.tier, want_sample: false, known: ctx.known.clone(), replay: true, worker: 0, nworkers: 1, seed: ctx.seed, variant: ctx.variant.clone() };
+    let mut sink = |b: &[u8], o: Option<Outcome>| -> bool {
+        if let Some(o) = o {
+            if b.first().copied() == Some(want) {
+                found = Some(o);
+                return false;
+            }
+        }
+        true
+    };
+    huge_cases(&c2, &mut sink);
+    found.unwrap_or_else(Outcome::new)
+}
+
 pub fn property() -> Property {
-    Property { id: "C08", rule: RULE, phases: vec![Phase::Prop { name: "wrapped streams x corruptions x trailer schedules", f: case, quick: 250_000, thorough: 3_000_000, max_tape: 300 }] }
+    Property { id: "C08", rule: RULE, phases: vec![Phase::Prop { name: "wrapped streams x corruptions x trailer schedules", f: case, quick: 250_000, thorough: 3_000_000, max_tape: 300 }, Phase::Enum { name: "gzip stream longer than 4 GiB: intact, ISIZE off by one, CRC bit flipped", f: huge_cases, replay: huge_replay }] }
 }
